@@ -11,6 +11,7 @@ import (
 	"path/filepath"
 	"sort"
 	"strings"
+	"sync"
 
 	"wa-lang.org/wa/internal/ast"
 	"wa-lang.org/wa/internal/ast/astutil"
@@ -90,6 +91,9 @@ func (p *_Loader) LoadProgramVFS(vfs *config.PkgVFS, appPath string) (*Program, 
 	return p.loadProgram(vfs, manifest)
 }
 
+// assert/trace 内置函数注册到全局的 Universe, 并发加载时只能注册一次
+var defPredeclaredTestFuncsOnce sync.Once
+
 // 加载程序
 func (p *_Loader) loadProgram(vfs *config.PkgVFS, manifest *config.Manifest) (*Program, error) {
 	logger.DumpFS(&config.EnableTrace_loader, "vfs.app", vfs.App, ".")
@@ -97,8 +101,10 @@ func (p *_Loader) loadProgram(vfs *config.PkgVFS, manifest *config.Manifest) (*P
 
 	// 注册 assert 函数
 	if p.cfg.UnitTest {
-		types.WaDefPredeclaredTestFuncs()
-		types.WzDefPredeclaredTestFuncs()
+		defPredeclaredTestFuncsOnce.Do(func() {
+			types.WaDefPredeclaredTestFuncs()
+			types.WzDefPredeclaredTestFuncs()
+		})
 	}
 
 	p.vfs = *vfs
